@@ -412,3 +412,122 @@ theorem gr_divide_and_round_q_last_ntt_inplace_eq (r : RNSTool) (tables : Array 
       show Except.ok _ = Except.ok _
       congr 1
       simp [List.map_map, Function.comp_def]
+
+/-! ### `mod_t_and_divide_q_last_inplace` (coefficient form) -/
+
+theorem gr_foldlM_push' {α : Type} (step : Array Nat → α → R (Array Nat)) (F : α → R Nat) : ∀ (l : List α) (acc : Array Nat),
+    (∀ acc x, x ∈ l → step acc x = (F x >>= fun y => .ok (acc.push y))) →
+    l.foldlM step acc = (l.mapM F >>= fun ys => .ok (acc ++ ys.toArray)) := by
+  intro l
+  induction l with
+  | nil => intro acc _; rw [gr_mapM_nil, gr_ok_bind]; simp [pure, Except.pure]
+  | cons a l ih =>
+    intro acc h
+    rw [List.foldlM_cons, gr_mapM_cons, h acc a (by simp)]
+    cases hF : F a with
+    | error e => rfl
+    | ok y =>
+      rw [gr_ok_bind, gr_ok_bind, gr_ok_bind, ih (acc.push y) (fun acc x hx => h acc x (by simp [hx]))]
+      cases l.mapM F with
+      | error e => rfl
+      | ok ys => rw [gr_ok_bind, gr_ok_bind, gr_ok_bind]; simp
+
+theorem gr_mtd_model (r : RNSTool) (p : RnsPoly)
+    (hq : ∀ i, i < r.baseQ.size → (r.baseQ.q i).WF) (hs : 1 ≤ r.baseQ.size) (ht : r.t.WF) (hinvt : r.invQLastModT < 2^64) (hp : gr_Shape r p)
+    (hw : ∀ x ∈ p.getD (r.baseQ.size - 1) #[], x < 2^64) :
+    r.modTAndDivideQLast p =
+      ((List.range' 0 (r.baseQ.size - 1)).mapM (fun i => gr_mtdComp (r.baseQ.q i) (r.baseQ.q (r.baseQ.size - 1)).value (r.invQLastModQ.getD i default)
+          (gr_negList r.t r.invQLastModT (p.getD (r.baseQ.size - 1) #[]).toList) (p.getD (r.baseQ.size - 1) #[]).toList (p.getD i #[]).toList) >>= fun outs =>
+       .ok ((outs.map List.toArray).toArray.push (p.getD (r.baseQ.size - 1) #[]))) := by
+  have ht0 : 0 < r.t.value := by have := ht.two_le; omega
+  have ht61 := ht.lt
+  have hL := hq (r.baseQ.size - 1) (by omega)
+  have hI := hp.2 (r.baseQ.size - 1) (by omega)
+  unfold RNSTool.modTAndDivideQLast
+  dsimp only
+  generalize p.getD (r.baseQ.size - 1) #[] = lastc at hI hw ⊢
+  have h0 : mapM' lastc (fun x => do let y ← barrett64 x r.t; negateMod y r.t) = .ok (lastc.map (fun x => (r.t.value - x % r.t.value) % r.t.value)) := by
+    apply mapM'_ok
+    intro x hx
+    rw [barrett64_exact ht (hw x hx), ok_bind]
+    exact negateMod_exact ht (Nat.mod_lt _ ht0).le
+  have hneg : (if r.invQLastModT ≠ 1 then mapM' (lastc.map (fun x => (r.t.value - x % r.t.value) % r.t.value)) (fun x => mulMod x r.invQLastModT r.t)
+        else pure (lastc.map (fun x => (r.t.value - x % r.t.value) % r.t.value))) = .ok (gr_negList r.t r.invQLastModT lastc.toList).toArray := by
+    unfold gr_negList
+    by_cases h1 : r.invQLastModT ≠ 1
+    · rw [if_pos h1, if_pos h1, mapM'_ok (g := fun x => (x * r.invQLastModT) % r.t.value)]
+      · congr 1; apply Array.ext'; simp
+      · intro x hx
+        obtain ⟨y, -, rfl⟩ := Array.mem_map.mp hx
+        have := Nat.mod_lt (r.t.value - y % r.t.value) ht0
+        exact mulMod_exact ht (by omega) hinvt
+    · rw [if_neg h1, if_neg h1]; show Except.ok _ = Except.ok _; congr 1; apply Array.ext'; simp
+  rw [h0, ok_bind, ite_bind_join, hneg, ok_bind]
+  have hnegw := gr_negList_lt r.t ht r.invQLastModT lastc.toList
+  refine Eq.trans (congrArg (fun m => m >>= _) (gr_mapM_congr _ (fun i => gr_mtdComp (r.baseQ.q i) (r.baseQ.q (r.baseQ.size - 1)).value (r.invQLastModQ.getD i default)
+          (gr_negList r.t r.invQLastModT lastc.toList) lastc.toList (p.getD i #[]).toList >>= fun c => .ok c.toArray) _ ?hb)) ?rest
+  case hb =>
+    intro i hi
+    rw [List.mem_range] at hi
+    have hb := hq i (by omega)
+    have hb0 : 0 < (r.baseQ.q i).value := by have := hb.two_le; omega
+    have hb61 := hb.lt
+    have hpi := hp.2 i (by omega)
+    rw [mapM'_ok (g := fun x => (x % (r.baseQ.q i).value * (r.baseQ.q (r.baseQ.size - 1)).value) % (r.baseQ.q i).value)
+        (by intro x hx
+            rw [barrett64_exact hb (hnegw x (by simpa using hx)), ok_bind]
+            have := Nat.mod_lt x hb0; have := hL.lt
+            exact mulMod_exact hb (by omega) (by omega)), ok_bind,
+      gr_foldlM_push' _ (fun j => ckAdd ((p.getD i #[]).getD j 0) ((r.baseQ.q i).value * 2 - lastc.getD j 0 % (r.baseQ.q i).value
+          - ((gr_negList r.t r.invQLastModT lastc.toList).toArray.map (fun x => (x % (r.baseQ.q i).value * (r.baseQ.q (r.baseQ.size - 1)).value) % (r.baseQ.q i).value)).getD j 0))
+        _ _ (by
+          intro acc j _
+          have hc : lastc.getD j 0 < 2^64 := getD_lt_of_forall hw (by norm_num) j
+          have hm := Nat.mod_lt (lastc.getD j 0) hb0
+          have hd : ((gr_negList r.t r.invQLastModT lastc.toList).toArray.map
+              (fun x => (x % (r.baseQ.q i).value * (r.baseQ.q (r.baseQ.size - 1)).value) % (r.baseQ.q i).value)).getD j 0 < (r.baseQ.q i).value := by
+            apply getD_lt_of_forall _ hb0
+            intro x hx
+            obtain ⟨y, -, rfl⟩ := Array.mem_map.mp hx
+            exact Nat.mod_lt _ hb0
+          rw [barrett64_exact hb hc, ok_bind, gr_ckSub_ok (by omega), ok_bind, gr_ckSub_ok (by omega), ok_bind]
+          rfl)]
+    unfold gr_mtdComp
+    simp only [Array.length_toList, hpi, List.range_eq_range', gr_arr_getD, List.map_toArray]
+    cases (List.range' 0 r.n).mapM (fun j => ckAdd ((p.getD i #[]).toList.getD j 0) ((r.baseQ.q i).value * 2 - lastc.toList.getD j 0 % (r.baseQ.q i).value
+          - ((gr_negList r.t r.invQLastModT lastc.toList).map (fun x => (x % (r.baseQ.q i).value * (r.baseQ.q (r.baseQ.size - 1)).value) % (r.baseQ.q i).value)).getD j 0)) with
+    | error e => rfl
+    | ok d =>
+      simp only [gr_ok_bind]
+      rw [mapM'_ok (g := fun x => mulOpV x (r.invQLastModQ.getD i default) (r.baseQ.q i)) (fun x _ => gr_mulOperandMod _ _ _)]
+      simp
+  case rest =>
+    rw [List.range_eq_range', gr_mapM_map_ok]
+    cases (List.range' 0 (r.baseQ.size - 1)).mapM (fun i => gr_mtdComp (r.baseQ.q i) (r.baseQ.q (r.baseQ.size - 1)).value (r.invQLastModQ.getD i default)
+          (gr_negList r.t r.invQLastModT lastc.toList) lastc.toList (p.getD i #[]).toList) with
+    | error e => rfl
+    | ok outs => rfl
+
+/-- **`RNSTool::mod_t_and_divide_q_last_inplace` (generated from src/util/rns.rs) = the hand model** on flat buffers; the trapping `+=` of the
+    inner loop traps on both sides at the same coefficient -/
+theorem gr_mod_t_and_divide_q_last_inplace_eq (r : RNSTool) (p : RnsPoly)
+    (hs : 1 ≤ r.baseQ.size) (hq : ∀ i, i < r.baseQ.size → (r.baseQ.q i).WF) (ht : r.t.WF) (hinvt : r.invQLastModT < 2^64)
+    (hinv : r.baseQ.size - 1 ≤ r.invQLastModQ.size) (hsn : r.baseQ.size * r.n < 2^64) (hs64 : r.baseQ.size < 2^64) (hp : gr_Shape r p)
+    (hw : ∀ x ∈ p.getD (r.baseQ.size - 1) #[], x < 2^64) :
+    GenR.mod_t_and_divide_q_last_inplace (flatP p) r.baseQ.size r.baseQ.base.toList r.n r.invQLastModQ.toList r.t r.invQLastModT
+      = (r.modTAndDivideQLast p).map flatP := by
+  obtain ⟨hcs, hn⟩ := gr_shape_cs hp
+  unfold flatP
+  rw [gr_mtd_list r.baseQ.base.toList r.invQLastModQ.toList r.t r.invQLastModT r.baseQ.size r.n _ hs (by simp [RNSBase.size])
+    (by simpa using hinv) (by intro i hi; rw [gr_q_toList]; exact hq i hi) ht hinvt hsn hs64 hcs hn
+    (by rw [gr_cs_getD]; intro x hx; exact hw x (by simpa using hx)),
+    gr_mtd_model r p hq hs ht hinvt hp hw]
+  simp only [gr_q_toList, gr_cs_getD, gr_ops_toList]
+  cases (List.range' 0 (r.baseQ.size - 1)).mapM (fun i => gr_mtdComp (r.baseQ.q i) (r.baseQ.q (r.baseQ.size - 1)).value (r.invQLastModQ.getD i default)
+          (gr_negList r.t r.invQLastModT (p.getD (r.baseQ.size - 1) #[]).toList) (p.getD (r.baseQ.size - 1) #[]).toList (p.getD i #[]).toList) with
+  | error e => rfl
+  | ok outs =>
+    simp only [gr_ok_bind]
+    show Except.ok _ = Except.ok _
+    congr 1
+    simp [List.map_map, Function.comp_def]
